@@ -76,6 +76,24 @@ def r17b(run):
                 and len(n.ast.targets) == 1 and isinstance(n.ast.targets[0], ast.Name)
                 and isinstance(n.ast.value, ast.Constant) and n.ast.value.value is val}
     flags = sorted(const_assigned(True) & const_assigned(False))
+    # ... or a collection of what was resolved: the name the worker's return value is made of, initialised empty / False and
+    # made truthy (set to True, appended to) along the way
+    ret_names = set()
+    for n in fa.cfg.nodes:
+        if n.kind == "stmt" and isinstance(n.ast, ast.Return) and n.ast.value is not None and fa.cfg.is_live(n):
+            ret_names |= set(names_in(n.ast.value))
+
+    def _falsy_init(v):
+        return (isinstance(v, ast.Constant) and not v.value) or (isinstance(v, (ast.List, ast.Set, ast.Dict, ast.Tuple))
+                                                                 and not getattr(v, "elts", getattr(v, "keys", None))) \
+            or (isinstance(v, ast.Call) and isinstance(v.func, ast.Name) and v.func.id in ("list", "set", "dict") and not v.args)
+    inits = {n.ast.targets[0].id for n in fa.cfg.nodes if n.kind == "stmt" and isinstance(n.ast, ast.Assign)
+             and len(n.ast.targets) == 1 and isinstance(n.ast.targets[0], ast.Name) and _falsy_init(n.ast.value)}
+    grown = {c.func.value.id for n, c in fa.all_calls() if isinstance(c.func, ast.Attribute) and isinstance(c.func.value, ast.Name)
+             and c.func.attr in ("append", "add")} | const_assigned(True)
+    indicator = sorted(ret_names & inits & grown)
+    if len(indicator) == 1:
+        flags = indicator
     evs = [c for n, c in fa.all_calls() if call_name(c) == "evaluate_forward_ref" and c.args]
     if len(flags) != 1 or not evs:
         raise AnalysisError(f"R17b: resolution worker {f.name}: flag locals {flags}, evaluate_forward_ref calls {len(evs)}")
@@ -115,6 +133,8 @@ def r17b(run):
     # resolved flag is set exactly when a reference evaluated
     sets = [n for n in fa.cfg.nodes if n.kind == "stmt" and isinstance(n.ast, ast.Assign)
             and unparse(n.ast.targets[0]) == FLAG and isinstance(n.ast.value, ast.Constant) and n.ast.value.value is True]
+    sets += [n for n, c in fa.all_calls() if isinstance(c.func, ast.Attribute) and unparse(c.func.value) == FLAG
+             and c.func.attr in ("append", "add")]
     ok = bool(sets) and all(any(unparse(a) == EVAL and p for a, p in fa.facts.atoms_at(n)) for n in sets)
     run.check("R17b", f, "`resolved` is set for every successfully evaluated reference", ok, construct="resolved flag",
               message="`resolved = True` is not set under `ref.__forward_evaluated__`")
@@ -213,13 +233,23 @@ def r17c(run):
     run.check("R17c", g, "a pending reference is stored together with its constraints", ok, construct="pending entry shape",
               message="register_forward_ref does not store (annotation, constraints)")
     def _key_text(c):
+        """the key expression with the definitions of the names it is made of (followed through copies and helpers analysed
+        in place, three levels)"""
         t = unparse(c.args[0])
-        if isinstance(c.args[0], ast.Name):
-            ga = analysis(g)
+        ga = analysis(g)
+        seen, todo = set(), set(names_in(c.args[0]))
+        for _round in range(3):
+            nxt = set()
             for n in ga.cfg.nodes:
-                if n.kind == "stmt" and isinstance(n.ast, (ast.Assign, ast.AugAssign)) and unparse(
-                        n.ast.targets[0] if isinstance(n.ast, ast.Assign) else n.ast.target) == c.args[0].id:
-                    t += " " + unparse(n.ast.value)
+                if n.kind == "stmt" and isinstance(n.ast, (ast.Assign, ast.AugAssign)):
+                    tg = n.ast.targets[0] if isinstance(n.ast, ast.Assign) else n.ast.target
+                    if isinstance(tg, ast.Name) and tg.id in todo and (tg.id, id(n)) not in seen:
+                        seen.add((tg.id, id(n)))
+                        t += " " + unparse(n.ast.value)
+                        nxt |= set(names_in(n.ast.value))
+            todo = nxt - {x for x, _ in seen}
+            if not todo:
+                break
         return t
     ok = bool(sd) and all("forward_key" in _key_text(c) and "__forward_arg__" in _key_text(c) for c in sd)
     run.check("R17c", g, "pending references are keyed per field (so that one name used twice keeps both constraint sets)",
